@@ -522,6 +522,11 @@ func MakeForeign(r *rng.R, opts ForeignOpts) *Foreign {
 		ovr("word/header2.xml", "application/vnd.openxmlformats-officedocument.wordprocessingml.header+xml")
 		hid := w.rel("header", "header2.xml", false)
 		sectRefs += `<` + w.el("headerReference") + w.at("type", "default") + ` r:id="` + hid + `"/>`
+		if r.Chance(1, 3) {
+			// one header part for two kinds: both references carry the same relationship id
+			w.feature("header-relationship-shared-by-two-kinds")
+			sectRefs += `<` + w.el("headerReference") + w.at("type", "first") + ` r:id="` + hid + `"/>`
+		}
 	}
 	if r.Bool() && !opts.Simple {
 		w.feature("footer")
@@ -598,10 +603,17 @@ func MakeForeign(r *rng.R, opts ForeignOpts) *Foreign {
 		}
 	}
 	sect := "<" + w.el("sectPr") + ">" + sectRefs + "<" + w.el("pgSz") + w.at("w", "11906") + w.at("h", "16838") + "/><" + w.el("pgMar") + w.at("top", "1440") + w.at("right", "1800") + w.at("bottom", "1440") + w.at("left", "1800") + w.at("header", "851") + w.at("footer", "992") + w.at("gutter", "0") + "/></" + w.el("sectPr") + ">"
-	if r.Chance(1, 4) && !opts.Simple {
+	switch {
+	case r.Chance(1, 4) && !opts.Simple:
 		w.feature("sectPr-in-last-paragraph")
 		body.WriteString("<" + w.el("p") + "><" + w.el("pPr") + ">" + sect + "</" + w.el("pPr") + ">" + w.run(w.word()) + "</" + w.el("p") + ">")
-	} else {
+	case r.Chance(1, 4) && !opts.Simple:
+		// two sections that use the same header/footer relationships: the first ends in a paragraph, the second is the body's
+		w.feature("two-sections")
+		body.WriteString("<" + w.el("p") + "><" + w.el("pPr") + ">" + sect + "</" + w.el("pPr") + ">" + w.run(w.word()) + "</" + w.el("p") + ">")
+		body.WriteString(w.paragraph(0))
+		body.WriteString(sect)
+	default:
 		body.WriteString(sect)
 	}
 	xmlnsW := `xmlns:` + w.p + `="` + nsW + `"`
